@@ -1478,8 +1478,10 @@ void readin (void)
 			visible_define ("M4_MODE_REENTRANT_TEXT_IS_ARRAY");
 	}
 
-	if (ctrl.do_main == trit_true)
+	if (ctrl.do_main == trit_true) {
+		visible_define ( "M4_YY_MAIN");
 		visible_define_str ( "YY_MAIN", "1");
+	}
 	else if (ctrl.do_main == trit_false)
 		visible_define_str ( "YY_MAIN", "0");
 
